@@ -1,6 +1,7 @@
 package props
 
 import (
+	"github.com/robfig/soy/parse"
 	"fmt"
 	"os"
 	"runtime"
@@ -22,6 +23,8 @@ type C18Case struct {
 	Inputs []C05Case `json:"inputs"`
 	// Bundles: groups of files compiled together with Bundle.Compile (which parses each of them)
 	Bundles [][]string `json:"bundles,omitempty"`
+	// Burst: (replay of) the burst tier
+	Burst bool `json:"burst,omitempty"`
 }
 
 func scannerGoroutines() int {
@@ -120,6 +123,12 @@ func genC18(t *rapid.T) C18Case {
 }
 
 func checkC18(c C18Case) Verdict {
+	if c.Burst {
+		if err := c18Burst(); err != nil {
+			return bad(true, "%v", err)
+		}
+		return ok(true, "burst")
+	}
 	// goroutines leaked by an earlier (failing, being shrunk) case cannot be killed:
 	// judge this case relative to what is alive now
 	base := scannerGoroutines()
@@ -186,4 +195,33 @@ func showInputs(ins []C05Case) string {
 	return strings.Join(s, " ; ")
 }
 
-func TestC18(t *testing.T) { runPropCrashy(t, "C18", genC18, checkC18) }
+// The burst tier: thousands of parses in a plain loop on one processor, no pause between them. A scanner
+// that is still alive when its parse returns gets no turn before the next parse starts its own: they
+// pile up, each holding its input. The peak number of goroutines has to stay small.
+func c18Burst() error {
+	defer runtime.GOMAXPROCS(runtime.GOMAXPROCS(1))
+	inputs := []string{"a", "{$a}", "{namespace a}\n/** */\n{template .x}hello {$y}{/template}\n", "a{$a}", "{namespace a}\n{template .x}{if $a}b{/if}{/template}"}
+	settle()
+	base, peak := runtime.NumGoroutine(), 0
+	for i := 0; i < 4000; i++ {
+		parse.SoyFile("burst.soy", inputs[i%len(inputs)])
+		if n := runtime.NumGoroutine(); n > peak {
+			peak = n
+		}
+	}
+	if peak-base > 200 {
+		return fmt.Errorf("4000 successful parses in a row on one processor: up to %d goroutines were alive at once (%d before the loop) - the scanner of a finished parse is still there when the next parse begins", peak, base)
+	}
+	return nil
+}
+
+func TestC18(t *testing.T) {
+	if shard() == "0" && os.Getenv("VERIF_REPLAY") == "" && os.Getenv("VERIF_CORPUS_ONLY") == "" {
+		if err := c18Burst(); err != nil {
+			c := C18Case{Burst: true}
+			writeFail("C18", c, err)
+			t.Fatalf("burst tier: %v", err)
+		}
+	}
+	runPropCrashy(t, "C18", genC18, checkC18)
+}
